@@ -142,28 +142,105 @@ func stripConv(v ssa.Value, widen bool) ssa.Value {
 
 type edge struct{ from, to *ssa.BasicBlock }
 
-// reach computes blocks reachable from start following successor edges except
-// those in cut. start itself is included.
-func reach(start []*ssa.BasicBlock, cut map[edge]bool) map[*ssa.BasicBlock]bool {
-	seen := map[*ssa.BasicBlock]bool{}
-	var stack []*ssa.BasicBlock
-	for _, s := range start {
-		if !seen[s] {
-			seen[s] = true
-			stack = append(stack, s)
+// condEval, when set, decides boolean SSA values under an assumption the current rule makes (e.g. "Config.ClientAuth
+// has the value k"): reach uses it for branch conditions and for the values flowing into boolean phis.
+var condEval func(v ssa.Value) (val bool, known bool)
+
+// boolOf: the value of a boolean SSA value if it is a constant or decided by condEval
+func boolOf(v ssa.Value) (bool, bool) {
+	if cb, ok := constBool(v); ok {
+		return cb, true
+	}
+	if u, ok := v.(*ssa.UnOp); ok && u.Op == token.NOT {
+		if b, ok := boolOf(u.X); ok {
+			return !b, true
 		}
 	}
+	if condEval != nil {
+		return condEval(v)
+	}
+	return false, false
+}
+
+// reach computes blocks reachable from start following successor edges except
+// those in cut. start itself is included. The walk is sensitive to the immediate predecessor for blocks that branch
+// on a boolean phi of their own (`ok := a && b; if !ok {...}`): entering such a block along an edge whose phi value is
+// known (a constant, or decided by condEval) only continues to the corresponding successor — the jump threading a
+// compiler would do, so that naming a condition does not change what the rules see.
+func reach(start []*ssa.BasicBlock, cut map[edge]bool) map[*ssa.BasicBlock]bool {
+	type state struct{ pred, b *ssa.BasicBlock }
+	seen := map[*ssa.BasicBlock]bool{}
+	seenS := map[state]bool{}
+	var stack []state
+	// branchPhi: the block ends in If(phi) or If(!phi) with phi defined in the block itself
+	branchPhi := func(b *ssa.BasicBlock) (*ssa.Phi, bool) {
+		if len(b.Instrs) == 0 {
+			return nil, false
+		}
+		ifi, ok := b.Instrs[len(b.Instrs)-1].(*ssa.If)
+		if !ok {
+			return nil, false
+		}
+		c := ifi.Cond
+		neg := false
+		if u, ok := c.(*ssa.UnOp); ok && u.Op == token.NOT {
+			c, neg = u.X, true
+		}
+		if ph, ok := c.(*ssa.Phi); ok && ph.Block() == b {
+			return ph, neg
+		}
+		return nil, false
+	}
+	push := func(pred, b *ssa.BasicBlock) {
+		if ph, _ := branchPhi(b); ph == nil {
+			pred = nil
+		}
+		st := state{pred, b}
+		if seenS[st] {
+			return
+		}
+		seenS[st] = true
+		seen[b] = true
+		stack = append(stack, st)
+	}
+	for _, s := range start {
+		push(nil, s)
+	}
 	for len(stack) > 0 {
-		b := stack[len(stack)-1]
+		st := stack[len(stack)-1]
 		stack = stack[:len(stack)-1]
-		for _, s := range b.Succs {
-			if cut[edge{b, s}] {
+		b := st.b
+		only := -1 // index of the only feasible successor, if decided
+		if len(b.Succs) == 2 {
+			if ifi, ok := b.Instrs[len(b.Instrs)-1].(*ssa.If); ok {
+				if ph, neg := branchPhi(b); ph != nil {
+					if st.pred != nil {
+						for i, p := range b.Preds {
+							if p == st.pred && i < len(ph.Edges) {
+								if v, known := boolOf(ph.Edges[i]); known {
+									if v != neg {
+										only = 0
+									} else {
+										only = 1
+									}
+								}
+							}
+						}
+					}
+				} else if v, known := boolOf(ifi.Cond); known && condEval != nil {
+					if v {
+						only = 0
+					} else {
+						only = 1
+					}
+				}
+			}
+		}
+		for i, s := range b.Succs {
+			if cut[edge{b, s}] || (only >= 0 && i != only) {
 				continue
 			}
-			if !seen[s] {
-				seen[s] = true
-				stack = append(stack, s)
-			}
+			push(b, s)
 		}
 	}
 	return seen
@@ -629,4 +706,29 @@ func sameFieldValue(f *ssa.Function, a, b ssa.Value) bool {
 		}
 	})
 	return clean
+}
+
+// isZeroAggregate: v is the zero value of an array or struct type: the constant, or a load of a fresh local that
+// is never written (how go/ssa renders the composite literal T{})
+func isZeroAggregate(v ssa.Value) bool {
+	if cst, ok := v.(*ssa.Const); ok {
+		return cst.Value == nil
+	}
+	ld, ok := v.(*ssa.UnOp)
+	if !ok || ld.Op != token.MUL {
+		return false
+	}
+	al, ok := ld.X.(*ssa.Alloc)
+	if !ok {
+		return false
+	}
+	for _, r := range *al.Referrers() {
+		if r != ssa.Instruction(ld) {
+			if _, isDbg := r.(*ssa.DebugRef); isDbg {
+				continue
+			}
+			return false
+		}
+	}
+	return true
 }
